@@ -343,6 +343,17 @@ func (l *Ledger) Finish(o FinishOpts) int {
 	for k, v := range o.Extra {
 		cov[k] = v
 	}
+	if l.Assume == nil {
+		l.Assume = []string{}
+	}
+	if l.Trusted == nil {
+		l.Trusted = []string{}
+	}
+	if l.Notes == nil {
+		l.Notes = []string{}
+	}
+	cov["trusted_base"] = l.Trusted
+	cov["notes"] = l.Notes
 	ev := map[string]any{
 		"property_id": l.Property,
 		"tier":        o.Tier,
